@@ -111,7 +111,7 @@ Proof.
   intros H. unfold step. destruct (stuck s); [split; reflexivity|].
   destruct st as [l|n e|l|l|c f|op ops|op]; try discriminate H.
   - split; reflexivity.
-  - destruct (eval_top (env_of s) e) as [e0 r0|]; [destruct (mentions n e0)|]; split; reflexivity.
+  - destruct (eval_top (env_of s) e) as [e0 r0|]; [destruct (equ_reaches _ _ n e0)|]; split; reflexivity.
   - split; reflexivity.
   - split; reflexivity.
   - destruct c; try (split; reflexivity).
